@@ -282,27 +282,22 @@ func runC02(c *Ctx, w *World, r *Report) {
 				if !ok {
 					return
 				}
-				// only a scan whose zero count sits inside the loop body
+				// only a scan whose zero count sits inside the loop body: on the taken edge of the loop-header test
 				inLoop := false
-				for _, pr := range iv.Phi.Block().Preds {
-					if iv.Phi.Block().Dominates(pr) && call.Block().Dominates(pr) || pr == call.Block() {
-						inLoop = true
-					}
-				}
-				if !inLoop && !fa.Reaches(call.Block(), iv.Phi.Block()) {
-					return
-				}
-				if !iv.Phi.Block().Dominates(call.Block()) || !fa.Reaches(call.Block(), iv.Phi.Block()) {
-					// the return inside the loop body leaves the loop: accept when the call's block is control dependent on the loop guard
-					guarded := false
-					for _, cd := range fa.Conds(call.Block()) {
-						if cd.If.Block() == iv.Phi.Block() {
-							guarded = true
+				for _, cd := range fa.Conds(call.Block()) {
+					if cd.If.Block() == iv.Phi.Block() && len(cd.If.Block().Succs) == 2 {
+						taken := cd.If.Block().Succs[0]
+						if !cd.Pol {
+							taken = cd.If.Block().Succs[1]
+						}
+						// the taken successor leads back to the header (loop body)
+						if fa.Reaches(taken, iv.Phi.Block()) {
+							inLoop = true
 						}
 					}
-					if !guarded {
-						return
-					}
+				}
+				if !inLoop {
+					return
 				}
 				nscan++
 				if iv.Step != 1 {
